@@ -26,7 +26,10 @@ def run(env, res):
                 'None/0/\'\'/False/[]/{}, 12% with a malformed group body or sequence item, 35% written in another '
                 'yaml layout: flow style, JSON, first step on line 1, other indentation); a case is '
                 'non-trivial when the model accepts it and it terminates; distinct by canonical program text')
-    directed = [('c05', fo.c05_family, env.n(400, 100000))]
+    directed = [('c05', fo.c05_family, env.n(400, 100000)), ('c05-edge', fo.c05_edge_family, env.n(57, 100000)),
+                ('c05-text', fo.c05_text_family, env.n(120, 100000)),
+                ('c03-restore-midloop', fo.c03_midloop_family, env.n(44, 100000)),
+                ('c03-restore', fo.c03_family, env.n(60, 100000)), ('c03-recursive', fo.c03_recursive_family, env.n(28, 100000))]
     flowcheck.run_streams(env, res, directed, env.n(500, 100000), weights={'fail': 3, 'set': 2},
                           random_monitor=flowcheck.monitor_all)
 
